@@ -1,11 +1,13 @@
 #!/bin/bash
-# usage: tools/try_patch.sh <patch.diff> <ID> [tier]   -- apply a patch to /repo, run one check, undo the patch
+# usage: tools/try_patch.sh <patch.diff> <ID> [tier]
+# Apply a patch to a scratch worktree of /repo HEAD (under /tmp), run one check against it, remove the worktree.
+# (/repo itself stays untouched so that other runs are not disturbed; VERIF_REPO is a development aid of run.sh)
 set -u
-PATCH="$1"; ID="$2"; TIER="${3:-quick}"
-cd /repo || exit 2
-if ! git diff --quiet; then echo "/repo has uncommitted changes"; exit 2; fi
-git apply "$PATCH" || { echo "patch does not apply"; exit 2; }
-cd /verif && ./run.sh "$ID" "$TIER" 2>&1 | grep -v "^  " | tail -${TAIL:-6}
+PATCH="$(readlink -f "$1")"; ID="$2"; TIER="${3:-quick}"
+WT="/tmp/tp-$$-$ID"
+git -C /repo worktree add -q --detach "$WT" HEAD || exit 2
+if ! git -C "$WT" apply "$PATCH"; then echo "patch does not apply"; git -C /repo worktree remove --force "$WT"; exit 2; fi
+cd /verif && VERIF_REPO="$WT" VERIF_OUT="$WT/.verif-out" ./run.sh "$ID" "$TIER" 2>&1 | grep -v "^  " | tail -${TAIL:-6}
 rc=${PIPESTATUS[0]}
-git -C /repo checkout -- . 
+git -C /repo worktree remove --force "$WT"
 echo "exit=$rc"
